@@ -162,6 +162,23 @@ def run(ck: Check) -> int:
             sr.distinct = sr.evaluations
         ck.search('fs-change-histories', s_fs)
 
+        def s_tilde(sr):
+            sr.note = ('GLOBTILDE: `~` is replaced exactly when the home directory exists at the call — $HOME missing / created / removed / '
+                       'created again in one warm process, glob / globmatch (with and without REALPATH) / translate, lists, BRACE, SPLIT, '
+                       'each call twice, vs a fresh interpreter (added after seeded change C19e: expand() was memoised)')
+            sr.evaluations = K9.tilde_histories(w, lambda what, inp, exp, obs: ck.report(
+                Failing(what, inp, exp, obs, site='wcmatch/_wcparse.py:expand / expand_tilde (reads the file system)'), None))
+            sr.distinct = sr.evaluations
+        ck.search('tilde-histories', s_tilde)
+
+        def s_fd(sr):
+            sr.note = ('glob with ONE dir_fd shared by 8 threads (700-entry directory, switch interval 1 µs): every answer = the '
+                       'sequential answer (added after seeded change C19f: os.dup shared the directory read offset)')
+            sr.evaluations = K9.shared_dirfd_threads(w, lambda what, inp, exp, obs: ck.report(
+                Failing(what, inp, exp, obs, site='wcmatch/glob.py:Glob._iter (dir_fd branch)'), None), 6 if not ck.deep() else 40)
+            sr.distinct = sr.evaluations
+        ck.search('shared-dir_fd-threads', s_fd)
+
         def s_obj(sr):
             sr.note = ('WcMatcher (fnmatch.compile / glob.compile) and the inner WcRegexp: equal and hash-equal when built twice (cold '
                        'cache in between), pickle / copy / deepcopy round trips equal with unchanged behaviour, setattr raises, reuse '
